@@ -190,10 +190,19 @@ def tables(cfg, crate, rep):
                 continue
             x = specialise(val, asg)
             txt = core(x).r()
-            splits = sorted({int(m_) for m_ in _re.findall(r"Range(?:To|From)\{(?:end|start): (\d+)\}", txt)})
+            # which part of the octet string each CidrSubnet field is: `b[..k]` / `b.split_at(k).0` is the first k
+            # octets, `b[k..]` / `b.split_at(k).1` the rest
+            splits = []
+            for sv_ in common.find_structs(x, "CidrSubnet::"):
+                for fk_ in sorted(sv_.fields):
+                    ft_ = core(sv_.fields[fk_]).r()
+                    roles_ = {("head", int(m_)) for m_ in _re.findall(r"RangeTo\{end: (\d+)\}", ft_)} \
+                        | {("tail", int(m_)) for m_ in _re.findall(r"RangeFrom\{start: (\d+)\}", ft_)} \
+                        | {("head" if i_ == "0" else "tail", int(m_)) for m_, i_ in _re.findall(r"split_at\((?:[^()]|\([^()]*\))*?, (\d+)\)\.([01])", ft_)}
+                    splits.append(sorted(roles_))
             got["%s%s" % (gname, "/%d" % ln if ln else "")] = (sorted(common.struct_variants(x, "GeneralSubtree::") | common.struct_variants(x, "CidrSubnet::")), splits, pushed is True)
     want = {"RFC822Name": (["Rfc822Name"], [], True), "DNSName": (["DnsName"], [], True), "DirectoryName": (["DirectoryName"], [], True), "URI": None, "OtherName": None,
-            "IPAddress/8": (["IpAddress", "V4"], [4], True), "IPAddress/32": (["IpAddress", "V6"], [16], True), "IPAddress/5": None}
+            "IPAddress/8": (["IpAddress", "V4"], [[("head", 4)], [("tail", 4)]], True), "IPAddress/32": (["IpAddress", "V6"], [[("head", 16)], [("tail", 16)]], True), "IPAddress/5": None}
     rep.ob("C17.tables", "%s|%s" % (cfg, fn), got == want, "GeneralName -> GeneralSubtree conversion inverts the writer's table; subnets are split addr||mask at 4 / 16 exactly when the octet string has 8 / 32 octets; other forms are skipped", expected=want, found=got)
     # is_ca: decision table over {extension present, cA, pathLen present, pathLen <= 255}
     fn = P + "convert_x509_is_ca"
